@@ -222,7 +222,12 @@ func reifyMap(opts *options, to reflect.Value, from *Config, validators []valida
 		if !old.IsValid() {
 			v, err = reifyValue(fieldOptions{opts: opts}, to.Type().Elem(), value)
 		} else {
-			v, err = reifyMergeValue(fieldOptions{opts: opts}, old, value)
+			// Values stored in a map are not addressable, but merging into an
+			// existing struct entry assigns to it: merge into a copy, which
+			// is stored in the map afterwards.
+			tmp := reflect.New(old.Type()).Elem()
+			tmp.Set(old)
+			v, err = reifyMergeValue(fieldOptions{opts: opts}, tmp, value)
 		}
 
 		if err != nil {
